@@ -6,6 +6,9 @@ ref_peaks      the documented find_peaks selection on a small image, pixel by pi
 com            centre of mass of a cut-out (the documented centroid_com)
 conv_zero      zero-padded 2-D convolution by explicit shifted sums
 disc_offsets   integer offsets (dy, dx) with dx^2 + dy^2 <= r^2
+box_cutouts    kernel-sized boxes centred on integer positions (zero beyond the image)
+simple_measurements   the documented "simple" columns of DAOStarFinder / IRAFStarFinder rows
+grid_assign    which position of a regular grid of supplied positions a reported centroid belongs to
 """
 import math
 
@@ -124,3 +127,71 @@ def disc_offsets(r):
     """Integer offsets within Euclidean distance r (inclusive)."""
     m = int(math.floor(r))
     return [(dy, dx) for dy in range(-m, m + 1) for dx in range(-m, m + 1) if dx * dx + dy * dy <= r * r]
+
+
+def box_cutouts(data, positions, kshape):
+    """(N, ky, kx) array: for every integer position (x, y) the ky x kx box centred on
+    it, with 0 where the box leaves the image (the documented zero padding)."""
+    data = np.asarray(data, float)
+    ky, kx = kshape
+    cy, cx = ky // 2, kx // 2
+    ny, nx = data.shape
+    pad = np.zeros((ny + 2 * cy, nx + 2 * cx))
+    pad[cy:cy + ny, cx:cx + nx] = data
+    pos = np.asarray(positions, int).reshape(-1, 2)
+    out = np.zeros((len(pos), ky, kx))
+    for j in range(ky):
+        for i in range(kx):
+            out[:, j, i] = pad[pos[:, 1] + j, pos[:, 0] + i]
+    return out
+
+
+def simple_measurements(finder, cuts, kmask):
+    """The documented simple measurements of a row at a given position, from its box.
+
+    'DAO' : peak = the pixel at the position, flux = sum of the box, npix = box size.
+    'IRAF': sky = mean of the box pixels outside the kernel footprint; the footprint pixels
+            minus sky, negative values discarded; peak / flux / npix (non-zero count) and the
+            first-moment centroid of those (relative to the box origin; NaN if the total is 0).
+    Returns a dict of length-N arrays."""
+    cuts = np.asarray(cuts, float)
+    n, ky, kx = cuts.shape
+    if finder == 'DAO':
+        return {'peak': cuts[:, ky // 2, kx // 2].copy(), 'flux': cuts.sum(axis=(1, 2)),
+                'npix': np.full(n, ky * kx)}
+    kmask = np.asarray(kmask).astype(bool)
+    nsky = max(1, int((~kmask).sum()))
+    sky = (cuts * ~kmask).sum(axis=(1, 2)) / nsky
+    d = (cuts - sky[:, None, None]) * kmask
+    d[d < 0] = 0.0
+    tot = d.sum(axis=(1, 2))
+    jj, ii = np.mgrid[:ky, :kx]
+    with np.errstate(invalid='ignore', divide='ignore'):
+        xc = (d * ii).sum(axis=(1, 2)) / tot
+        yc = (d * jj).sum(axis=(1, 2)) / tot
+    return {'peak': d.max(axis=(1, 2)), 'flux': tot, 'npix': np.count_nonzero(d, axis=(1, 2)),
+            'xcentroid_in_box': xc, 'ycentroid_in_box': yc}
+
+
+def grid_assign(xc, yc, grid):
+    """Supplied positions form a regular grid: x = ox + i*px (0 <= i < ncols), y = oy + j*py
+    (0 <= j < nrows), listed in raster order (j major), the first ``n`` of them used.
+    -> index array of the grid position nearest to each (xc, yc); -1 when the nearest grid
+    node is not one of the n positions.  With pitches >= 2*kernel+1 a centroid that lies in
+    the kernel box of its own position can never be nearer to another one."""
+    xc = np.asarray(xc, float)
+    yc = np.asarray(yc, float)
+    i = np.floor((xc - grid['ox']) / grid['px'] + 0.5)
+    j = np.floor((yc - grid['oy']) / grid['py'] + 0.5)
+    ok = (i >= 0) & (i < grid['ncols']) & (j >= 0) & (j < grid['nrows']) & np.isfinite(xc) & np.isfinite(yc)
+    idx = np.where(ok, j * grid['ncols'] + i, -1)
+    idx = np.where(np.isfinite(idx), idx, -1).astype(int)
+    idx[idx >= grid['n']] = -1
+    return idx
+
+
+def grid_positions(grid):
+    """(n, 2) integer array of the (x, y) positions of ``grid`` in raster order."""
+    t = np.arange(grid['n'])
+    j, i = np.divmod(t, grid['ncols'])
+    return np.stack([grid['ox'] + i * grid['px'], grid['oy'] + j * grid['py']], axis=1)
